@@ -495,7 +495,7 @@ def cases(tier):
     if tier == 'quick':
         link_sets = [[0, 1, 3], [2, 4, 0], [5, 6, 0], [7, 8, 9]]
     else:
-        link_sets = [list(range(NLINKS)), list(range(NLINKS))[::-1]] + [[i + 1, i] for i in range(NLINKS - 1)]
+        link_sets = [list(range(NLINKS)), list(range(NLINKS))[::-1]] + [[i + 1, i] for i in range(0, NLINKS - 1, 2)]
     windows = [(None, -2), (-1, -1), (0, 0), (1, 1), (2, None)]
     if tier == 'quick':
         combos = [('lin4', [0, 1, 3]), ('lin4', [5, 6, 0]), ('branch4', [2, 4, 0]), ('branch4', [7, 8, 9]), ('branch4', [10, 0]), ('ring3', [10]),
